@@ -41,14 +41,14 @@ build() {
 
 build || exit 2
 if [ "$mode" = replay ]; then
-  [ -n "$race" ] && export GORACE="log_path=$SCR/race halt_on_error=0 history_size=2"
+  [ -n "$race" ] && export GORACE="log_path=$SCR/race halt_on_error=0 history_size=2 exitcode=0"
   "$SCR/b/vcheck" -replay "$arg"; exit $?
 fi
 if [ "$mode" = trace ]; then
   shift; "$SCR/b/vcheck" "$@"; exit $?
 fi
 if [ -n "$race" ]; then
-  export GORACE="log_path=$SCR/race halt_on_error=0 history_size=2"
+  export GORACE="log_path=$SCR/race halt_on_error=0 history_size=2 exitcode=0"
 fi
 "$SCR/b/vcheck" -prop "$mode" -tier "$arg"
 exit $?
